@@ -221,6 +221,21 @@ impl<'a, 'tcx> ThirDump<'a, 'tcx> {
         if let Some(bytes) = v.try_to_raw_bytes(self.cx.tcx) {
             return s(String::from_utf8_lossy(bytes).to_string());
         }
+        if matches!(v.ty.kind(), ty::Str | ty::Slice(_)) {
+            if let Some(branch) = v.valtree.try_to_branch() {
+                let mut bytes = Vec::new();
+                let mut ok = true;
+                for c in branch.iter() {
+                    match c.try_to_leaf() {
+                        Some(leaf) => bytes.push(leaf.to_bits_unchecked() as u8),
+                        None => ok = false,
+                    }
+                }
+                if ok {
+                    return s(String::from_utf8_lossy(&bytes).to_string());
+                }
+            }
+        }
         s(format!("{}", v))
     }
 
